@@ -17,6 +17,8 @@ St(fs) == [f \in 1..Len(fs) |-> <<Len(fs[f].recs), fs[f].w, fs[f].s>>]
 StOk(fs, st) == /\ Len(st) = Len(fs)
                 /\ \A f \in 1..Len(fs) : st[f][1] = Len(fs[f].recs) /\ st[f][3] = fs[f].s
                                           /\ st[f][2] >= fs[f].w /\ st[f][2] <= Len(fs[f].recs)
+\* where the files end after the call, as observed: the rotation oracle of Wal!RotCond
+Tg(e) == [f \in 1..Len(e.st) |-> e.st[f][1]]
 LastId(h) == IF h = <<>> THEN 0 ELSE h[Len(h)]
 InSeq(x, q) == \E j \in DOMAIN q : q[j] = x
 
@@ -25,34 +27,39 @@ Reset == /\ files' = <<NewFile>> /\ meta' = 0 /\ open' = TRUE /\ mem' = {}
          /\ hist' = <<>> /\ okRec' = TRUE /\ rsince' = 0
 
 \* an API call that logged m data records (+ its commit marker); id taken from the trace
-IssueId(i, m) ==
+IssueId(i, m, tg) ==
   /\ open
   /\ LET recs == [j \in 1..m |-> OpR(i)] \o (IF "NoCommitMarkerBeforeClose" \in AsIs \/ m = 0 THEN <<>> ELSE <<Cm>>)
-         st == LogMany(<<files, rsince>>, recs)
+         st == LogManyG(<<files, rsince>>, recs, tg)
      IN /\ issued' = issued + 1 /\ mem' = (IF m = 0 THEN mem ELSE mem \cup {i})
         /\ hist' = (IF m = 0 THEN hist ELSE Append(hist, i))
         /\ files' = st[1] /\ rsince' = st[2]
         /\ durable' = DurOf(st[1], meta, hist', durable)
   /\ UNCHANGED <<meta, open, crashes, ckpts, closes, flips, okRec>>
 
+\* what had been promised when the crash struck: for an image that can only come from a crash inside rotate()
+\* (an older file shorter than its fsynced length) the rotation's own fsync is not counted
+DurableAt(img) == IF \E f \in 1..Len(files) : img[f][1] < files[f].s
+                  THEN LeadIn(hist, RecoveredOf(SyncedOnly(PreRotate(files, img)), meta), 0) ELSE durable
 CrashImg(img) ==
   /\ open /\ open' = FALSE /\ crashes' = crashes + 1
   /\ Len(img) = Len(files)
-  /\ \A f \in 1..Len(files) : img[f][1] >= files[f].s /\ img[f][1] <= Len(files[f].recs) /\ (img[f][2] => img[f][1] < Len(files[f].recs))
+  /\ \A f \in 1..Len(files) : img[f][1] >= Floor(files, f) /\ img[f][1] <= Len(files[f].recs) /\ (img[f][2] => img[f][1] < Len(files[f].recs))
   /\ files' = ImageOf(files, img) /\ rsince' = 0
-  /\ UNCHANGED <<meta, mem, issued, durable, ckpts, closes, flips, hist, okRec>>
+  /\ durable' = DurableAt(img)
+  /\ UNCHANGED <<meta, mem, issued, ckpts, closes, flips, hist, okRec>>
 
 \* a hypothetical crash image (and optional bit flip) opened on a copy: no state change
 FlipImg(fs, fl) == IF fl[1] = 0 THEN fs ELSE [fs EXCEPT ![fl[1]].recs = [@ EXCEPT ![fl[2]] = Junk]]
 ProbeOk(e) ==
   /\ Len(e.img) = Len(files)
-  /\ \A f \in 1..Len(files) : e.img[f][1] >= files[f].s /\ e.img[f][1] <= Len(files[f].recs)
+  /\ \A f \in 1..Len(files) : e.img[f][1] >= Floor(files, f) /\ e.img[f][1] <= Len(files[f].recs)
   /\ LET fs == FlipImg(ImageOf(files, e.img), e.flip)
          R == RecoveredOf(fs, meta)
          k == PrefixLen(R, hist)
      IN /\ e.ok                                             \* recovery is total: the open succeeded
         /\ k <= Len(hist)                                   \* some prefix of the issued operations
-        /\ (e.flip[1] = 0 => k >= durable)                  \* at least everything before the last sync
+        /\ (e.flip[1] = 0 => k >= DurableAt(e.img))                \* at least everything before the last sync
         /\ InSeq(LastId(SubSeq(hist, 1, k)), e.match)       \* and the real database shows exactly that prefix
 
 TStep ==
@@ -60,12 +67,12 @@ TStep ==
   /\ l' = l + 1
   /\ LET e == Ev[l] IN
      CASE e.a = "reset" -> Reset /\ e.mode = Mode
-       [] e.a = "op"    -> IssueId(e.i, e.nrec) /\ (e.chg => e.nrec > 0) /\ e.fresh /\ StOk(files', e.st)
+       [] e.a = "op"    -> IssueId(e.i, e.nrec, Tg(e)) /\ (e.chg => e.nrec > 0) /\ e.fresh /\ StOk(files', e.st)
        [] e.a = "sync"  -> Sync /\ e.ok /\ StOk(files', e.st)
-       [] e.a = "ckpt"  -> Checkpoint /\ e.ok /\ StOk(files', e.st)
-       [] e.a = "close" -> Close /\ e.ok /\ StOk(files', e.st)
+       [] e.a = "ckpt"  -> CheckpointG(Tg(e)) /\ e.ok /\ StOk(files', e.st)
+       [] e.a = "close" -> CloseG(Tg(e)) /\ e.ok /\ StOk(files', e.st)
        [] e.a = "crash" -> CrashImg(e.img)
-       [] e.a = "open"  -> Open /\ e.ok /\ okRec' /\ InSeq(LastId(hist'), e.match) /\ StOk(files', e.st)
+       [] e.a = "open"  -> OpenG(Tg(e)) /\ e.ok /\ okRec' /\ InSeq(LastId(hist'), e.match) /\ StOk(files', e.st)
        [] e.a = "probe" -> ProbeOk(e) /\ UNCHANGED vars
 
 TInit == Init /\ l = 1
